@@ -92,7 +92,14 @@ struct HllUnionFam {
     Hll s(static_cast<uint8_t>(r.chance(0.6) ? (r.coin() ? c.lg_k1 : c.lg_k2) : r.range(4, 12)), pick_type(r), r.chance(0.1), A(scratch));
     feed(s, c, r);
     if (how <= 2) { o.update(s); xcount("hll_union.merge_ref"); }
-    else { o.update(std::move(s)); xcount("hll_union.merge_move"); }
+    else {
+      o.update(std::move(s)); xcount("hll_union.merge_move");
+      if (r.coin()) {   // the consumed sketch must remain assignable and usable
+        Hll live(static_cast<uint8_t>(r.coin() ? c.lg_k1 : r.range(4, 12)), pick_type(r), r.chance(0.1), A(scratch));
+        feed(live, c, r);
+        reuse_consumed_operand(s, live, r, [](const Hll& x) { return hll_readout(x); }, [&](Hll& x) { if (r.coin()) x.reset(); feed(x, c, r); (void)x.get_estimate(); });
+      }
+    }
   }
   static std::string readout(const Obj& o, const Cfg&) {
     std::string s = "empty=" + std::to_string(o.is_empty()) + " lg_k=" + std::to_string(o.get_lg_config_k()) + " est=" + dstr(o.get_estimate()) + " comp=" + dstr(o.get_composite_estimate()) +
